@@ -358,3 +358,39 @@ Example c17_nonvacuous_ids :
   option_map breakpad_text (parse_breakpad (repeat 48 33)) = Some (repeat 48 33) /\
   code_id_text [53;65;47;46;46;92;71;102] = [53;97;102].
 Proof. exact parse_render_nonvacuous. Qed.
+
+(* ====================================================================================
+   Round 5 — the file system SINKS of the consumers.  Gen/C17Flow.v g_fs_sinks: every call in lib.rs / http.rs
+   (non-test) that opens, creates, removes, renames or probes a path — fs::*, File::*, NamedTempFile::*, persist*,
+   SymbolFile::from_file, PathBuf::from / Path::new, .exists() / .is_file() / .is_dir() ... — with the provenance of
+   that path, followed through `let`, parameters (every call site) and the values self.locate_file returns. *)
+Theorem c17_src_sinks_known : unknown_sinks g_fs_sinks = [].
+Proof. exact all_sinks_known. Qed.
+Print Assumptions c17_src_sinks_known.
+
+(* every path a sink receives is a root itself (a symbol directory, self.cache, self.tmp) or `<root>.join(s)` with s a
+   safe relative path below that root, for every module and kind; at most one `.parent()` is applied (create_dir_all) *)
+Theorem c17_src_sinks_contained : forall k, In k g_fs_sinks ->
+  (k_parents k <= 1)%nat /\ k_paths k <> [] /\
+  forall q, In q (k_paths k) ->
+    match q with
+    | PRoot r => known_root r = true
+    | PJoined r a => known_root r = true /\
+        forall m kind p, mv_bytes m -> mv_hex m -> eval_arg a m kind = Some p -> safe_rel p /\ below_root r p
+    | PUnknownPath => False
+    end.
+Proof. exact sink_contained. Qed.
+Print Assumptions c17_src_sinks_contained.
+
+(* non-vacuity (statement in C17/FlowProofs.v sinks_witness): fetch_lookup's persist_noclobber receives
+   self.cache joined with lookup(module, kind).cache_rel; create_dir_all receives one .parent(); >= 10 sinks *)
+Example c17_nonvacuous_sinks : sinks_witness.
+Proof. exact sinks_nonvacuous. Qed.
+
+(* minidump-common/src/utils.rs basename (display names, the `code_file` query parameter), compiled by the same
+   translator: it is the same function as leafname although it is written with rfind + a slice, and that slice
+   `&f[(index + 1)..]` — the only expression of the compiled functions that could panic — is always in bounds *)
+Theorem c17_src_basename : (forall s, g_basename s = leafname s) /\
+  (forall f s i, rfind_pat f s = Some i -> (i + 1 <= length s)%nat) /\ g_basename_partial_ops = 1%nat.
+Proof. exact (conj g_basename_eq (conj rfind_pat_in_bounds eq_refl)). Qed.
+Print Assumptions c17_src_basename.
